@@ -915,9 +915,11 @@ pub fn expected_sources(entries: &[FsEntry], input: &str, input_is_file: bool) -
     if input_is_file {
         return vec![input];
     }
-    let prefix = format!("{}/", input);
+    // an empty input is the working directory itself (`darklua process . <output>`)
+    let prefix = if input.is_empty() { String::new() } else { format!("{}/", input) };
     let mut out: Vec<String> = entries
         .iter()
+        .filter(|e| !e.path.starts_with("../") && !e.path.starts_with('/'))
         .filter(|e| e.body != Body::Dir && e.path.starts_with(&prefix) && is_lua(&e.path))
         .map(|e| e.path.clone())
         .collect();
